@@ -67,6 +67,14 @@ def handleAlign (fs : List (List String)) : Option String :=
     match fs with
     | [_, a, b] => some s!"D {editDist (nats a) (nats b)} {lev (nats a) (nats b)}"
     | _ => some "bad-request"
+  | ["distof"] =>
+    -- same fields as `align`, plus a last field: the similarity (bits); returns distance cfg inp sim
+    match fs.getLast? with
+    | some [sim] =>
+      match alignInput fs.dropLast with
+      | some (cfg, inp) => some s!"D {fltOut (distance cfg inp (flt! sim))}"
+      | none => some "bad-request"
+    | _ => some "bad-request"
   | ["dist"] =>
     match alignInput fs with
     | some (cfg, inp) =>
